@@ -182,8 +182,9 @@ theorem uniqueSpec_nodrop (keys : List κ) :
 
 /-! ## `Rotation.unique` is the specification -/
 
-/-- For every list of keys and every comparison function numpy may sort with: the elements, `idx_sort` and
-the rebuilt inverse map returned by `Rotation.unique` are exactly those of the specification. -/
+/-- For every list of keys (the empty one included) and every comparison function numpy may sort with: the
+elements, `idx_sort` and the rebuilt inverse map returned by `Rotation.unique` are exactly those of the
+specification. -/
 theorem rotUnique_eq_spec (lt : κ → κ → Bool) (keys : List κ) :
     rotUnique lt keys = uniqueSpec (fun _ => false) keys := by
   rw [uniqueSpec_nodrop]
